@@ -161,6 +161,31 @@ def conform(traces, devs, workers=8, heap_mb=2048, timeout=1800):
     return out, res
 
 
+_ARITH = re.compile(r'^"<<\\"ARITH\\", (\d+), \{(.*)\}>>"\s*$', re.M)
+
+
+def judge_arith(calls, workers=8, heap_mb=2048, timeout=1800):
+    "returns (id -> [failure names], tlcres); calls without a line passed every law"
+    tmp = tempfile.mkdtemp(prefix='vtr-')
+    try:
+        path = os.path.join(tmp, 'calls.ndjson')
+        with open(path, 'w') as f:
+            for t in calls:
+                f.write(json.dumps(t, separators=(',', ':')) + '\n')
+        nw = max(1, min(workers, len(calls)))
+        cfg = 'INIT Init\nNEXT Next\nINVARIANT Judged\nCONSTANTS\n  NW = %d\n' % nw
+        res = tlc('TraceArith', cfg, env={'TRACE_FILE': path}, workers=nw, heap_mb=heap_mb, timeout=timeout)
+    finally:
+        shutil.rmtree(tmp, ignore_errors=True)
+    if res['out'].count('ARITHDONE') != nw or res['distinct'] != len(calls):
+        i = res['out'].find('Error:')
+        raise Machinery('TLC judged %d of %d arithmetic calls:\n%s' % (res['distinct'], len(calls), res['out'][i:i + 2500] if i >= 0 else res['out'][-3000:]))
+    out = {}
+    for m in _ARITH.finditer(res['out']):
+        out[int(m.group(1))] = re.findall(r'\\"([^"\\]+)\\"', m.group(2))
+    return out, res
+
+
 _PAIR = re.compile(r'^"<<\\"PAIR\\", (\d+), (TRUE|FALSE), (\{.*\})>>"\s*$', re.M)
 _PFAIL = re.compile(r'<<\\"([^"\\]*)\\", (\d+)>>')
 
